@@ -1,3 +1,91 @@
-(* C25 — Multi-database flushes are crash consistent.  (theorems are added as they are proved) *)
-From Coq Require Import NArith List.
-From LV Require Import lib.Bytes model.CrashBase model.SyncedPool model.Flagged.
+(* C25 — Multi-database flushes are crash consistent.
+   Only theorem statements, each closed by [exact <lemma>], and Print Assumptions.
+
+   [run_pool fk scale h] runs the history h of user operations through the model of
+   flushable.SyncedPool and yields the log of durable operations (rs_log) and one record per
+   completed flush (rs_recs): position in the log, flush ID, and the contents of every open
+   database according to the independent specification CrashBase.spec_step (an abstract map per
+   database driven by the user's puts, deletes, batches and drops only).  The orders in which the
+   four loops of flush() range over Go maps are oracle lists inside each HFlush of h, so "for
+   every h" includes "for every phase order".  [crash log k] is the world after the first k
+   durable operations; l is the surviving databases in ANY order (CheckDBsSynced ranges over a
+   Go map); [crash_consistent] says: the verdict is dirty / not synced / non-initialised, or it is
+   "no flush" and every surviving database is empty, or it is the mark of a flush completed at or
+   before k and every surviving database holds exactly its contents at that flush (databases
+   absent at that flush are empty). *)
+From Coq Require Import NArith List Permutation.
+From LV Require Import lib.Bytes model.CrashBase model.SyncedPool model.Flagged
+  proofs.CrashBaseProofs proofs.SyncedPoolProofs proofs.FlaggedProofs proofs.FlaggedAnyIds.
+Import ListNotations.
+Local Open Scope N_scope.
+
+Theorem C25_pool_crash_consistent : forall fk scale h k l,
+  history_avoids fk h = true ->
+  lists_world l (crash (rs_log (run_pool fk scale h)) k) ->
+  crash_consistent fk (rs_recs (run_pool fk scale h)) k (crash (rs_log (run_pool fk scale h)) k) l.
+Proof. exact pool_crash_consistent. Qed.
+
+(* The same for flaggedproducer.Producer (writes go straight to the backend, preceded by the dirty
+   mark on the first write after an open or a flush; Flush writes the clean marks).  Hypothesis:
+   two consecutive flushes use different IDs — with equal IDs the statement holds only with the
+   flush that is still in progress (Example C25_flagged_same_id). *)
+Theorem C25_flagged_crash_consistent : forall fk h k l,
+  history_avoids fk h = true -> flush_ids_change None h = true ->
+  lists_world l (crash (fr_log (run_flagged fk h)) k) ->
+  crash_consistent fk (fr_recs (run_flagged fk h)) k (crash (fr_log (run_flagged fk h)) k) l.
+Proof. exact flagged_crash_consistent. Qed.
+
+(* Without any assumption on the flush IDs: the record may be that of the flush in progress at the
+   crash point (it is a record of the history; its position is bounded by the end of the log
+   instead of by k). *)
+Theorem C25_flagged_crash_consistent_any_ids : forall fk h k l,
+  history_avoids fk h = true ->
+  lists_world l (crash (fr_log (run_flagged fk h)) k) ->
+  crash_consistent fk (fr_recs (run_flagged fk h)) (max k (length (fr_log (run_flagged fk h))))
+                   (crash (fr_log (run_flagged fk h)) k) l.
+Proof. exact flagged_crash_consistent_any_ids. Qed.
+
+(* Recovery reads the verdict off the marks alone: an OK verdict means every surviving database
+   carries exactly that (non-dirty) mark, "no flush" means no database carries a mark. *)
+Theorem C25_check_ok_some : forall fk l m,
+  check_synced fk l = COk (Some m) ->
+  l <> [] /\ forall n c, In (n, c) l -> dget fk c = Some m /\ is_dirty m = false.
+Proof. exact check_ok_some. Qed.
+Theorem C25_check_ok_none : forall fk l,
+  check_synced fk l = COk None -> forall n c, In (n, c) l -> dget fk c = None.
+Proof. exact check_ok_none. Qed.
+
+(* ... and therefore an OK verdict does not depend on the order in which the Go map of surviving
+   databases is visited (only the kind of error may). *)
+Theorem C25_check_order_independent : forall fk l1 l2 x,
+  Permutation l1 l2 -> check_synced fk l1 = COk x -> check_synced fk l2 = COk x.
+Proof. exact check_synced_perm. Qed.
+
+(* non-vacuity: a history with two flushes, a queued drop and crash points of every kind *)
+Example C25_pool_example :
+  history_avoids C25Ex.fk C25Ex.h = true /\
+  map (fun k => check_synced C25Ex.fk (crash (rs_log (run_pool C25Ex.fk 1 C25Ex.h)) k)) (seq 0 13)
+  = [COk None; COk None; CDirty; CDirty; CDirty; CDirty; CDirty; CDirty;
+     COk (Some [0; 1]); COk (Some [0; 1]); CDirty; CDirty; COk (Some [0; 2])] /\
+  map r_pos (rs_recs (run_pool C25Ex.fk 1 C25Ex.h)) = [8%nat; 12%nat].
+Proof. vm_compute. repeat split. Qed.
+
+Example C25_flagged_example :
+  history_avoids C25Ex.fk C25Ex.h = true /\ flush_ids_change None C25Ex.h = true /\
+  map (fun k => check_synced C25Ex.fk (crash (fr_log (run_flagged C25Ex.fk C25Ex.h)) k)) (seq 0 13)
+  = [COk None; COk None; CDirty; CDirty; CDirty; CDirty; CDirty; CDirty;
+     COk (Some [0; 1]); CDirty; CDirty; CDirty; COk (Some [0; 2])].
+Proof. vm_compute. repeat split. Qed.
+
+Example C25_flagged_same_id :
+  history_avoids SameId.fk SameId.h = true /\ flush_ids_change None SameId.h = false /\
+  ~ crash_consistent SameId.fk SameId.recs 11 (crash SameId.log 11) (crash SameId.log 11) /\
+  (exists rc, In rc SameId.recs /\ r_pos rc = 13%nat /\ r_snap rc = crash SameId.log 11).
+Proof. exact flagged_same_id_counterexample. Qed.
+
+Print Assumptions C25_pool_crash_consistent.
+Print Assumptions C25_flagged_crash_consistent.
+Print Assumptions C25_flagged_crash_consistent_any_ids.
+Print Assumptions C25_check_ok_some.
+Print Assumptions C25_check_ok_none.
+Print Assumptions C25_check_order_independent.
